@@ -50,7 +50,8 @@ def run(ctx):
             sc["fallback_errno"] = rr.choice(["ENOSYS", "EXDEV", "EPERM"])
         for plan in policies(rr, sc, cell):
             n += 1
-            jobs.append((sc, dict(run_id="p%d" % n, cell=cell, workers=rr.choice([1, 2, 4]), plan=plan)))
+            simple = all(x.startswith(("cfr.max", "cfr.rand", "cfr.nth", "cfr.seq", "pread.", "read.")) for x in plan)
+            jobs.append((sc, dict(run_id="p%d" % n, cell=cell, workers=rr.choice([1, 2, 4]), plan=plan, life=(cell == 1 and simple and n % 2 == 0))))
     # bigger dense files with byte-sized cells: many calls per block, several blocks
     for drv in ("parfile", "parblock"):
         for size, bs in ((1000, 64), (4097, 4096), (70000, 65536), (5, 100)):
